@@ -8,7 +8,8 @@ CHECKS = {
     "C17": dict(
         cat="proof",
         text="Theorems (Props/C17.v, all lengths/windows/labelings) about a hand-written Gallina model of rolling_sum, "
-             "mean_grp and the accessor trimming; the model is tied to /repo on every run by an exact correspondence "
+             "mean_grp and the accessor trimming (window semantics, nodata handling, value independence, and locality: data before the window "
+             "or after the cell never changes an output - C17_rolling_history_irrelevant / _future_irrelevant); the model is tied to /repo on every run by an exact correspondence "
              "(vm_compute) that is exhaustive over {nodata,-2,0,1}^<=5 (<=8 thorough) x all windows / labelings plus "
              "random longer series over every dtype, and by an independent integer spec evaluated on the "
              "implementation's outputs.",
